@@ -13,6 +13,9 @@ dltype = import_repo()
 from dltype._lib import _parser  # noqa: E402
 
 warnings.simplefilter("ignore")
+import sys as _sys  # noqa: E402
+
+_sys.set_int_max_str_digits(0)
 
 
 def show_item(x) -> str:
@@ -293,7 +296,10 @@ def handle(line: str) -> str:
     h = HANDLERS.get(f[0])
     if h is None:
         return "bad-op"
-    return h(*f[1:])
+    try:
+        return h(*f[1:])
+    except Exception as e:  # noqa: BLE001  (the harness must survive whatever the tree under test does)
+        return "harness-error " + type(e).__name__ + ": " + str(e)[:80]
 
 
 def run_impl(lines: list[str]) -> list[str]:
